@@ -688,6 +688,10 @@ func tokLexeme(atom string, i int) string {
 		return "\"" + l + "\\\n" + l + "\""
 	case "STRING_Q":
 		return `"` + l + `\"\\"`
+	case "STRING_QU":
+		return `"é\"\\"`
+	case "STRING_MLU":
+		return "\"é\\\nü\""
 	case "STRING_TAB":
 		return "\"" + l + "\t\""
 	case "STRING_NP":
@@ -710,6 +714,8 @@ func tokLexeme(atom string, i int) string {
 		return "| " + l
 	case "DESCRIPTION_LONG":
 		return "| " + longWords
+	case "DESCRIPTION_EMPTY":
+		return "|"
 	case "EOL":
 		return "\n"
 	}
@@ -737,13 +743,13 @@ func tokensToText(atoms []string) string {
 
 func atomType(a string) string {
 	switch a {
-	case "STRING_ML", "STRING_Q", "STRING_TAB", "STRING_NP", "STRING_U":
+	case "STRING_ML", "STRING_Q", "STRING_TAB", "STRING_NP", "STRING_U", "STRING_QU", "STRING_MLU":
 		return "STRING"
 	case "REGEX_SL":
 		return "REGEX"
 	case "BLOCK_COMMENT_ML":
 		return "BLOCK_COMMENT"
-	case "DESCRIPTION_LONG":
+	case "DESCRIPTION_LONG", "DESCRIPTION_EMPTY":
 		return "DESCRIPTION"
 	}
 	return a
